@@ -1,5 +1,5 @@
 (* C09 - Pratt parsing respects binding power and associativity and preserves token order. *)
-From Chum Require Import Corollaries PrattP.
+From Chum Require Import Corollaries PrattP PrattOrder.
 
 (* the machine's pratt_go (checkpoints, rewinds, table iteration, recursion for operands) computes
    the specification's binding-power algorithm [pratt_sem] *)
@@ -47,6 +47,22 @@ Theorem C09_declaration_order :
     = SDone (Some (Some (pfold_infix k lhs vop vr (spn start p2), p2, e1 ++ e2), a2)).
 Proof. exact infix_first_applicable_wins. Qed.
 
+(* flattening the tree yields the consumed tokens in order: if the atom and every operator parser keep exactly the tokens
+   they consume in their output, so does atom.pratt(ops) - for every table, power, associativity, input, start position *)
+Theorem C09_flattening_yields_the_consumed_tokens_in_order :
+  forall K toks spn atom ops,
+    sfaithful K toks spn atom ->
+    Forall (fun o => forall n, faithful_op toks (sem K toks spn n) o) ops ->
+    forall n ctx p a v p' e a',
+      sem K toks spn n (Pratt atom ops) ctx p a = Some (Some (v, p', e), a') -> p <= length toks ->
+      val_toks v = seg toks p p'.
+Proof. intros K toks spn atom ops Ha Ho n. exact (pratt_faithful K toks spn atom ops Ha Ho n). Qed.
+
+(* any() and one_of() are such parsers *)
+Theorem C09_token_primitives_are_faithful :
+  forall K toks spn, sfaithful K toks spn Any /\ forall ts, sfaithful K toks spn (OneOf ts).
+Proof. intros K toks spn. split; [exact (any_faithful K toks spn) | exact (one_of_faithful K toks spn)]. Qed.
+
 (* non-vacuity: - a + a * a ! with prefix 3, postfix 4, '*' left 2, '+' left 1; a ^ a ^ a right-assoc;
    a + (dangling) *)
 Example C09_example :
@@ -68,4 +84,6 @@ Print Assumptions C09_looser_operator_not_applied.
 Print Assumptions C09_tighter_admitted_looser_excluded.
 Print Assumptions C09_associativity.
 Print Assumptions C09_dangling_operator_unconsumed.
+Print Assumptions C09_flattening_yields_the_consumed_tokens_in_order.
+Print Assumptions C09_token_primitives_are_faithful.
 Print Assumptions C09_declaration_order.
